@@ -951,7 +951,6 @@ func FromV3SchemaRef(schema *openapi3.SchemaRef, components *openapi3.Components
 		v2Schema.AllOf[i], _ = FromV3SchemaRef(v, components)
 	}
 	if schema.Value.PermitsNull() {
-		schema.Value.Nullable = false
 		if schema.Value.Extensions == nil {
 			v2Schema.Extensions = make(map[string]any)
 		}
